@@ -83,6 +83,12 @@ func (ex *Exec) callFunc(st *State, frID int, instr ssa.Instruction, fn *ssa.Fun
 		k(st, ex.freshResults(st, res, "erased"))
 		return
 	}
+	if key == "sort.Search" && len(args) == 2 {
+		if c, ok := args[1].(*ClosureV); ok {
+			k(st, []Val{ex.sortSearch(st, frID, args[0].(Term), c)})
+			return
+		}
+	}
 	if fc := ex.ctx.specs.Funcs[key]; fc != nil && !(fn == ex.fn && ex.depth == 0) {
 		ex.applyContract(st, frID, instr, fc, fn.Signature, args, k)
 		return
@@ -517,4 +523,57 @@ func (ex *Exec) assumeBytesFrame(st *State, na, old Term, lo, hi Term) {
 	}
 	st.Assume(Term{fmt.Sprintf("(forall ((o Int) (l Int)) (! (=> (or (<= (+ o l) %s) (>= o %s)) (= (bslice %s o l) (bslice %s o l))) :pattern ((bslice %s o l))))",
 		lo.S, hi.S, na.S, old.S, na.S), SBool})
+}
+
+// pureClosureTerm evaluates a side-effect free, single-path closure body on a symbolic
+// argument and returns its boolean result as a term (used for sort.Search predicates).
+func (ex *Exec) pureClosureTerm(st *State, c *ClosureV, arg Term) (Term, bool) {
+	sand := st.Clone()
+	savedDisc, savedPaths := ex.disc, ex.paths
+	// run like a discovery: no obligations are emitted inside the sandbox
+	ex.disc = &discovery{watermark: ex.D.n, loop: &Loop{Blocks: map[*ssa.BasicBlock]bool{}}, frameID: -1, globals: map[*ssa.Global]bool{}}
+	var results []Term
+	fr := ex.newFrame(sand, c.Fn)
+	fr.Free = c.Bind
+	if len(c.Fn.Params) == 1 {
+		fr.Regs[c.Fn.Params[0]] = arg
+	}
+	ex.depth++
+	ex.run(sand, fr.ID, c.Fn.Blocks[0], 0, nil, func(s2 *State, res []Val) {
+		if len(res) == 1 {
+			if t, ok := res[0].(Term); ok {
+				results = append(results, t)
+			}
+		}
+	})
+	ex.depth--
+	wrote := len(ex.disc.writes) > 0
+	ex.disc, ex.paths = savedDisc, savedPaths
+	if len(results) != 1 || wrote {
+		return Term{}, false
+	}
+	return results[0], true
+}
+
+// sortSearch models sort.Search(n, f) for a pure predicate f given as a closure literal:
+// the result r satisfies 0 <= r <= n, f(r) if r < n, and !f(k) for every k < r. (That this is
+// the least such index for every f that is false on a prefix and true on the rest is
+// sort.Search's documented contract; f is only evaluated on 0 <= i < n.)
+func (ex *Exec) sortSearch(st *State, frID int, n Term, c *ClosureV) Term {
+	ex.externs["sort.Search (binary search contract over the inlined predicate)"] = true
+	r := ex.D.Fresh("search", SInt)
+	st.Assume(And(Le(IntT(0), r), Le(r, n)))
+	tr, ok := ex.pureClosureTerm(st, c, r)
+	if !ok {
+		ex.unsupported("sort.Search predicate is not a pure single-path closure")
+		return r
+	}
+	st.Assume(Implies(Lt(r, n), tr))
+	ex.D.n++
+	kname := fmt.Sprintf("k!%d", ex.D.n)
+	tk, ok := ex.pureClosureTerm(st, c, Term{kname, SInt})
+	if ok {
+		st.Assume(Term{fmt.Sprintf("(forall ((%s Int)) (=> (and (<= 0 %s) (< %s %s)) (not %s)))", kname, kname, kname, r.S, tk.S), SBool})
+	}
+	return r
 }
